@@ -1011,3 +1011,33 @@ def positional_args(ix, call):
   while out and out[-1] is None:
     out.pop()
   return out if all(x is not None for x in out) else None
+
+
+def last_component_of(f, fs, e, sep='/'):
+  """Text of X when expression `e` (temporaries resolved through the facts `fs`) is the last `sep`-separated component of X:
+  X.rsplit(sep, 1)[-1], X.split(sep)[-1], X.rpartition(sep)[2], or the name after the star in `*_, n = X.split(sep)`."""
+  e = expand_expr(fs or frozenset(), e)
+  def const(x, v):
+    return isinstance(x, ast.Constant) and x.value == v
+  if isinstance(e, ast.Subscript) and isinstance(e.value, ast.Call) and isinstance(e.value.func, ast.Attribute):
+    c = e.value
+    idx = u(e.slice)
+    if c.func.attr == 'rsplit' and len(c.args) >= 1 and const(c.args[0], sep) and idx == '-1' and \
+        (len(c.args) == 1 or const(c.args[1], 1)) and not c.keywords or \
+        (c.func.attr == 'rsplit' and len(c.args) == 1 and const(c.args[0], sep) and idx == '-1' and
+         len(c.keywords) == 1 and c.keywords[0].arg == 'maxsplit' and const(c.keywords[0].value, 1)):
+      return u(c.func.value)
+    if c.func.attr == 'split' and len(c.args) == 1 and const(c.args[0], sep) and not c.keywords and idx == '-1':
+      return u(c.func.value)
+    if c.func.attr == 'rpartition' and len(c.args) == 1 and const(c.args[0], sep) and idx in ('2', '-1'):
+      return u(c.func.value)
+  if isinstance(e, ast.Name):
+    for a in walk_local(f.node):
+      if isinstance(a, ast.Assign) and len(a.targets) == 1 and isinstance(a.targets[0], ast.Tuple) and len(a.targets[0].elts) == 2 \
+          and isinstance(a.targets[0].elts[0], ast.Starred) and u(a.targets[0].elts[1]) == e.id and isinstance(a.value, ast.Call) \
+          and isinstance(a.value.func, ast.Attribute) and a.value.func.attr == 'split' and len(a.value.args) == 1 and const(a.value.args[0], sep) \
+          and not a.value.keywords:
+        others = [x for x in walk_local(f.node) if isinstance(x, ast.Name) and x.id == e.id and isinstance(x.ctx, ast.Store)]
+        if len(others) == 1:
+          return u(a.value.func.value)
+  return None
